@@ -24,7 +24,7 @@ ASSUMPTIONS = [
     "os.stat result is a stub object with symbolic st_size (fixed size and mtime for the conditional table, dates placed before / at / after the mtime); the file object is never read (body bytes are written by sendfile / the kernel: FFI)",
     "StreamResponse.prepare and FileResponse._sendfile are recording stubs",
     "a syntactically invalid or malformed Range header may be answered 416 or ignored (200, whole file): RFC 9110 14.2 allows both",
-    "not claimed: path confinement, symlink policy, directory listing (os.path/pathlib/kernel behind FFI)",
+    "path confinement, symlink policy and directory listing are decided only on concrete request targets chosen by the solver from a fixed segment alphabet over one real directory tree (os.path / pathlib / the kernel resolve the path: no code to execute symbolically)",
 ]
 TRUSTED = []
 
